@@ -74,6 +74,32 @@ STRENGTH = {
  "C10-C": "first detection had no concrete input (only trace-inclusion mismatches); the result class of every Execve is now compared with the class its own parameters determine",
  "C13-D": "first detection had no concrete input; DupToMemfd is now fed by readers that return data together with io.EOF, one byte at a time, in 7-byte chunks, and with (0,nil) reads",
  "C19-C": "first detection had no concrete input; receives are now also made with a full descriptor table (0, 1, n-1, n free slots)",
+ # fourth round (changes E and F for all twenty properties, same rules, told to avoid rounds 1-3)
+ "C01-F": "missed at first (the empty policy was drawn with probability under one per cent); the policy that lists nothing is now built for every default action, with nil and with empty lists",
+ "C02-F": "missed at first; in traced runs the path names now lie across a page boundary of the tracee's memory at a random byte in a third of the calls (new probe argument kind)",
+ "C03-E": "missed at first; multi-threaded programs in which one thread makes a filter-killed call while another lives on or ends the process with exit_group(0) were added",
+ "C03-F": "first detection had no concrete input; bans are now run under five configured BanRet values and the program reports the error it saw",
+ "C04-F": "missed at first; sequences of launches in one container environment, each with its own filter/limit options, the program reporting its seccomp mode and limits",
+ "C05-F": "missed at first (an empty table was never drawn); the empty table and a table whose only entry is filtered out are now drawn in one case of ten; the script no longer changes the mode of / and the harness removes what an escaped probe plants on the host",
+ "C06-F": "missed at first; the launcher now sometimes holds an inheritable descriptor (its own stdio, or a fresh one) at the number of a slot marked 'close'",
+ "C07-E": "missed at first; failing launches are now also made with descriptor tables that put the error channel 0..2 numbers above the scratch start of the shuffle, with more relocations than that",
+ "C07-F": "missed at first; failing launches are now also made while the caller has another, already ended and uncollected child, whose status must stay collectible",
+ "C08-F": "missed at first; the measured-bound cases now also end by a fault, an abort, a termination signal or a non-zero exit after the bound was exceeded",
+ "C09-E": "missed at first; container programs (and their children) now send every signal 1..64 to pid 1 of their namespace before exiting with their own code",
+ "C10-F": "missed at first; a refused after-exec synchronisation is now also tried on a program that would run for a minute, and every Execve of a history has a 15 s watchdog",
+ "C11-F": "missed at first as a harness time-out without input; every run of the cancellation sweep now has its own watchdog, the container environment of the sweep being the unrelated child that the changed clean-up waits for",
+ "C13-F": "first detection had no concrete input; DupToMemfd is now fed by files positioned at 0, 1, 4, size/2, size-1 and size, and by procfs/sysfs files whose st_size says nothing about their content",
+ "C14-E": "missed at first (the effect of a length-0 batch was never looked at); empty Open and Symlink batches are now followed by a fixed sequence of checked operations",
+ "C14-F": "first detection had no concrete input; a 250-item batch is now repeated 400 times on one environment and every descriptor is checked by inode",
+ "C15-E": "missed at first; programs using vfork (parent suspended until the child execs or exits) were added to the watched runs",
+ "C15-F": "missed at first; programs that name paths leading into symlink cycles (self, pair, via ..) were added to the watched runs",
+ "C16-E": "missed at first; the controller is now also killed while it is inside the synchronisation callback of a ptrace and of a namespace launch (program descriptors 0,1,2 so that the shuffle overwrites nothing by accident)",
+ "C16-F": "missed at first; the tracer is now also used directly on a launcher without a seccomp filter, killed once the program's descendants exist",
+ "C17-E": "missed at first; a call is now queued on a shared environment while the previous run, which leaves a 1 GiB descendant, is being torn down",
+ "C17-F": "first detection had no concrete input for the changed fact; the concurrent rounds already exposed it (environments killed with the thread that forked them) and report it directly",
+ "C19-E": "first detection was counted as a broken correspondence only; a delivered message that differs from the one sent (length, descriptor count, sender-specified credentials) is now a violation with that message as input",
+ "C19-F": "first detection had no concrete input; both ends now send and receive at the same time on one Socket value, descriptors checked by identity and position",
+ "C20-F": "missed at first; a ledger of every limit written (memory, pids, a cpuset narrower than the parent's) is re-checked after every later operation, e.g. re-opening the group",
 }
 
 out = []
@@ -116,7 +142,9 @@ s8 = ["## 8. Seeded changes: which check catches which change\n",
 for pid in sorted(props.PROPS):
     for name, title, files, m in seeded(pid):
         how = "concrete failing input (%d VIOLATION lines)" % m.get("violation_lines", 0)
-        if m.get("no_failing_input_found_lines"):
+        if m.get("no_failing_input_found_lines") and m.get("no_failing_input_found_lines") >= m.get("violation_lines", 0):
+            how = "broken obligation (no-failing-input-found)"
+        elif m.get("no_failing_input_found_lines"):
             how += ", plus broken obligation"
         if not m.get("detected"):
             how = "NOT DETECTED"
@@ -127,6 +155,35 @@ s8.append("Missed by the first version of the check and caught after strengtheni
           "time-out without a concrete input and the search was improved until it produced one. In every strengthening the check was made to explore "
           "more (a new operation, a new injected failure, a deadline), never told about the particular change.\n" % (
               ", ".join(sorted(missed)), ", ".join(sorted(k for k in STRENGTH if k not in missed))))
+# first-run statistics per letter pair (what the check that existed when the change was written did)
+stats = {}
+for d in sorted(glob.glob(os.path.join(VERIF, "seeded", "C*-*"))):
+    if not os.path.isdir(d):
+        continue
+    letter = os.path.basename(d).split("-")[1][0]
+    grp = {"A": "A/B", "B": "A/B", "C": "C/D", "D": "C/D", "E": "E/F", "F": "E/F"}.get(letter, letter)
+    f = os.path.join(d, "meta_first_run.json")
+    if not os.path.exists(f):
+        f = os.path.join(d, "meta.json")
+    try:
+        m = json.load(open(f))
+    except Exception:
+        continue
+    st = stats.setdefault(grp, [0, 0, 0, 0])
+    st[0] += 1
+    if not m.get("detected"):
+        st[1] += 1
+    elif m.get("no_failing_input_found_lines") and m.get("no_failing_input_found_lines") >= m.get("violation_lines", 0):
+        st[2] += 1
+    else:
+        st[3] += 1
+s8.append("First runs, i.e. what the check did that existed when the change was written (`meta_first_run.json` where a check was "
+          "strengthened afterwards): " + "; ".join("changes %s: %d written, %d missed, %d detected without a failing input, %d detected with one" % (g, v[0], v[1], v[2], v[3]) for g, v in sorted(stats.items())) +
+          ". The A/B figures are low because those checks were still being built when A/B were written (most A/B misses were found and "
+          "closed before the first recorded run). The later rounds are the honest estimate of what an unseen change of this kind meets: "
+          "about half were caught outright. What the misses have in common: the proofs and the regenerated-code ties cover the modelled core, "
+          "and a change outside it (a corner of the input space the generator did not visit, a second process, a timing) is only seen if the "
+          "differential run goes there.\n")
 sweep = os.path.join(VERIF, "seeded", "SWEEP.txt")
 if os.path.exists(sweep):
     s8.append("Last sweep against the current tree (`seeded/SWEEP.txt`):\n\n```\n" + open(sweep).read().strip() + "\n```\n")
@@ -159,7 +216,7 @@ nth = sum(len(theorems(p)) for p in props.PROPS)
 head = head.replace("24 genuine defects of go-sandbox were found; 20 are repaired by `fix:` commits in /repo, 4 are recorded",
                     "%d genuine defects of go-sandbox were found; %d are repaired by `fix:` commits in /repo, %d are recorded" % (len(fixed) + len(opens), len(fixed), len(opens)))
 nseeded = len([d for d in glob.glob(os.path.join(VERIF, "seeded", "C*-*")) if os.path.isdir(d)])
-head = head.replace("* 40 seeded property-breaking changes (two per property, written by sub-agents that saw only the property\n  text)", "* %d seeded property-breaking changes (two per property in a first round, two more per property in a second and third\n  round after the checks existed; all written by sub-agents that saw only the property text)" % nseeded)
+head = head.replace("* 40 seeded property-breaking changes (two per property, written by sub-agents that saw only the property\n  text)", "* %d seeded property-breaking changes (two per property in each of four rounds, the later ones\n  written after the checks existed and told to avoid the earlier ideas; all written by sub-agents that saw only the property text)" % nseeded)
 head = head.replace("all 40 are detected by the check of their property, 9 of them only after the\n  check was strengthened (section 8 says which and how).",
                     "all %d are detected by the check of their property; %d were missed by the version of the check that existed when they\n  were written and %d more were first detected without a concrete failing input — section 8 says which, and how the\n  checks were strengthened (never by telling a check about a particular change)." % (nseeded, len(missed), len(STRENGTH) - len(missed)))
 head = head.replace("* Levels are stated per property", "* %d kernel-checked theorems in the 20 property files.\n* Levels are stated per property" % nth)
